@@ -2,7 +2,8 @@
    satisfiability examples for the hypotheses used in Properties_C20. *)
 From Coq Require Import ZArith List Bool Lia Arith Floats.
 From Clip Require Import base.Geom base.FloatModel model.PathUtils proofs.PathUtilsBase proofs.PathUtilsFloat
-  proofs.PathUtilsTrim proofs.PathUtilsFlags proofs.PathUtilsSimplify proofs.PathUtilsRdp proofs.PathUtilsMisc.
+  proofs.PathUtilsTrim proofs.PathUtilsFlags proofs.PathUtilsSimplify proofs.PathUtilsRdp proofs.PathUtilsMisc
+  proofs.PathUtilsNoNan.
 Import ListNotations.
 Local Open Scope nat_scope.
 
@@ -13,8 +14,8 @@ Proof. exists (trim_l p o). split; [apply trim_collinear_eq|apply trim_l_sublist
 Theorem trim_area p : exists r, trim_collinear p false = Ok r /\ area2 r = area2 p.
 Proof. exists (trim_l p false). split; [apply trim_collinear_eq|]. apply trim_closed_area, trim_collinear_eq. Qed.
 
-Example trim_open_hyp_sat : 2 <= length [(0, 0); (1, 0)]%Z /\ forall a, [(0, 0); (1, 0)]%Z <> [a; a].
-Proof. split; [cbn; lia|]. intros a H. inversion H; subst. discriminate. Qed.
+Example trim_open_hyp_sat : 2 <= length [(0, 0); (0, 0)]%Z.
+Proof. cbn; lia. Qed.
 
 (* ---- SimplifyPath ---- *)
 Theorem simplify_path_subseq p eps c r : simplify_path p eps c = Ok r -> sublist r p.
@@ -23,13 +24,18 @@ Proof. apply simplify_subseq. Qed.
 Theorem simplify_path_safe p eps c : exists r, simplify_path p eps c = Ok r.
 Proof. apply simplify_safe. Qed.
 
+(* epsilon^2 >= 0 holds for every epsilon other than NaN (epsilon = +inf and epsilon^2 = +inf included): the
+   tolerance the loop works with is clamped below MAX_DBL, the pseudo distance of the two ends *)
 Theorem simplify_path_open_keeps_ends p eps :
-  2 <= length p -> (fsqr eps <? MAX_DBL)%float = true ->
+  2 <= length p -> (0 <=? fsqr eps)%float = true ->
   exists r, simplify_path p eps false = Ok r /\ keeps_ends r p = true.
-Proof. intros H1 H2. apply simplify_open_keeps_ends; [exact ltb_gt_trans|exact H1|exact H2]. Qed.
+Proof.
+  intros H1 H2. apply simplify_open_keeps_ends; [exact ltb_gt_trans|exact H1|apply simp_eps_sqr_lt_max; exact H2].
+Qed.
 
-Example simplify_open_hyp_sat : (fsqr 1 <? MAX_DBL)%float = true /\ (fsqr 0x1p+500 <? MAX_DBL)%float = true.
-Proof. split; reflexivity. Qed.
+Example simplify_open_hyp_sat :
+  (0 <=? fsqr 1)%float = true /\ (0 <=? fsqr 0x1p+700)%float = true /\ (0 <=? fsqr infinity)%float = true.
+Proof. repeat split; reflexivity. Qed.
 
 (* ---- RamerDouglasPeucker ---- *)
 Theorem rdp_path_subseq p eps r : rdp_path p eps = Ok r -> sublist r p.
@@ -38,24 +44,55 @@ Proof. apply rdp_subseq. Qed.
 Theorem rdp_path_safe p eps : (0 <=? fsqr eps)%float = true -> exists r, rdp_path p eps = Ok r.
 Proof. intros H. apply rdp_safe. exact H. Qed.
 
-Theorem rdp_path_keeps_first p eps : (0 <=? fsqr eps)%float = true -> 1 <= length p ->
-  exists r, rdp_path p eps = Ok r /\ hd_pt r = hd_pt p.
-Proof. intros H. apply rdp_keeps_first. exact H. Qed.
-
-Theorem rdp_path_keeps_ends_partial p eps : (0 <=? fsqr eps)%float = true -> 2 <= length p ->
-  (forall i a, i < length p - 1 -> nth_error p i = Some a -> nth_error p (length p - 1) <> Some a) ->
+(* both end vertices are kept, whatever the path (first == last, all points equal, ... included) *)
+Theorem rdp_path_keeps_ends p eps : (0 <=? fsqr eps)%float = true ->
   exists r, rdp_path p eps = Ok r /\ keeps_ends r p = true.
-Proof. intros H. apply rdp_keeps_ends_partial. exact H. Qed.
+Proof. intros H. apply rdp_keeps_ends. exact H. Qed.
 
+(* every removed vertex is within epsilon -- measured and compared as the code does, d2 <= epsilon^2 in binary64 -- of
+   the line through the nearest kept vertices before and after it, and it has both.  Hypothesis: no NaN distance
+   between vertices of the path (true for int64 coordinates: the products stay below 2^260). *)
+Theorem rdp_path_bound p eps fl :
+  (0 <=? fsqr eps)%float = true ->
+  (forall a b c, In a p -> In b p -> In c p -> not_nan (perp_d2 a b c) = true) ->
+  rdp_path_flags p eps = Ok fl -> rdp_bad_f p fl eps = [].
+Proof.
+  intros Heps Hnn. unfold rdp_path_flags, rdp_bad_f. destruct (length p <? 5) eqn:E.
+  - intros H; inversion H. unfold rdp_bad. apply rdp_bad_all_true.
+  - apply Nat.ltb_ge in E. intros H.
+    apply (rdp_bound_gen float perp_d2 PrimFloat.leb 0%float p (fsqr eps)); try assumption.
+    + reflexivity.
+    + exact leb_trans.
+    + intros a b Ha Hb. apply leb_total; apply leb_refl_inv; assumption.
+    + intros a b c Ha Hb Hc. apply leb_refl_not_nan, Hnn; assumption.
+    + intros x a Hx Ha. eapply leb_trans; [apply perp_d2_same_end, Hnn; assumption|exact Heps].
+Qed.
+
+(* for paths with int64 coordinates (all paths of the real code) the hypothesis is discharged *)
+Theorem rdp_path_bound_i64 p eps fl :
+  (0 <=? fsqr eps)%float = true -> coords_i64 p ->
+  rdp_path_flags p eps = Ok fl -> rdp_bad_f p fl eps = [].
+Proof. intros Heps Hp. apply rdp_path_bound; [exact Heps|apply perp_d2_not_nan_i64; exact Hp]. Qed.
+
+Definition rdp_witness : path := [(0, 0); (10, 10); (20, 0); (30, 10); (40, 0); (0, 0)]%Z.
+
+(* the hypotheses are satisfiable, on the path that refuted both clauses before the repair *)
 Example rdp_hyp_sat :
   (0 <=? fsqr 1)%float = true /\ (0 <=? fsqr 0)%float = true /\
-  let p := [(0, 0); (1, 5); (2, 0); (3, 5); (4, 0)]%Z in
-  2 <= length p /\ forall i a, i < length p - 1 -> nth_error p i = Some a -> nth_error p (length p - 1) <> Some a.
+  forallb (fun a => forallb (fun b => forallb (fun c => not_nan (perp_d2 a b c)) rdp_witness) rdp_witness) rdp_witness = true.
+Proof. split; [reflexivity|]. split; [reflexivity|]. vm_compute. reflexivity. Qed.
+
+Example rdp_i64_hyp_sat : coords_i64 rdp_witness /\ coords_i64 [(-9223372036854775808, 9223372036854775807)]%Z.
 Proof.
-  split; [reflexivity|]. split; [reflexivity|]. split; [cbn; lia|].
-  intros i a Hi Ha He. cbn [length] in Hi.
-  do 4 (destruct i as [|i]; [cbn in Ha, He; congruence|]). lia.
+  split; intros q Hq; cbn in Hq; repeat (destruct Hq as [<-|Hq]; [split; reflexivity|]); contradiction.
 Qed.
+
+(* (0,0)(10,10)(20,0)(30,10)(40,0)(0,0), epsilon 1: returned (0,0)(10,10)(20,0)(30,10) before the repair *)
+Example rdp_witness_repaired :
+  rdp_path rdp_witness 1 = Ok rdp_witness /\ rdp_path_flags rdp_witness 1 = Ok [true; true; true; true; true; true] /\
+  rdp_bad_f rdp_witness [true; true; true; true; true; true] 1 = [] /\
+  rdp_bad_f rdp_witness [true; true; true; true; false; false] 1 = [4; 5].
+Proof. repeat split; vm_compute; reflexivity. Qed.
 
 (* ---- defining equations: examples for the hypotheses ---- *)
 Example get_bounds_hyp_sat : in_i64 (px (3, -4)%Z) = true /\ in_i64 (py (3, -4)%Z) = true.
